@@ -86,7 +86,20 @@ impl Q32E2 {
 
     #[inline]
     pub fn neg(&mut self) {
-        self.0 = self.0.wrapping_neg();
+        // two's complement negation of the whole 512-bit accumulator
+        let mut u = self.to_bits();
+        let mut i = 8;
+        while i > 0 {
+            i -= 1;
+            if u[i] != 0 {
+                u[i] = u[i].wrapping_neg();
+                while i > 0 {
+                    i -= 1;
+                    u[i] = !u[i];
+                }
+            }
+        }
+        *self = Self::from_bits(u);
     }
 
     #[inline]
